@@ -102,6 +102,32 @@ impl Report {
             json!({"signature": signature, "clause": clause, "detail": detail, "replay": replay, "count": 1}),
         );
     }
+    /// continue from a snapshot() of an earlier process of the same shard
+    pub fn load_carry(&mut self, v: &Value) {
+        self.evaluations = v["evaluations"].as_u64().unwrap_or(0);
+        self.distinct = v["distinct"].as_array().map(|a| a.iter().filter_map(|x| x.as_str().map(String::from)).collect()).unwrap_or_default();
+        self.samples = v["samples"].as_array().cloned().unwrap_or_default();
+        let m = |x: &Value| -> BTreeMap<String, u64> { x.as_object().map(|o| o.iter().map(|(k, n)| (k.clone(), n.as_u64().unwrap_or(0))).collect()).unwrap_or_default() };
+        self.counters = m(&v["counters"]);
+        self.inconclusive = m(&v["inconclusive"]);
+        self.violations = v["violations"].as_array().map(|a| a.iter().map(|x| (x["signature"].as_str().unwrap_or("").to_string(), x.clone())).collect()).unwrap_or_default();
+    }
+    /// the report so far, in the format finish() writes (for a watchdog that has to stop the shard)
+    pub fn snapshot(&self) -> String {
+        json!({
+            "prop": self.prop, "seed": self.seed, "tier": self.tier, "shard": self.shard, "of": self.of,
+            "evaluations": self.evaluations,
+            "distinct": self.distinct.iter().collect::<Vec<_>>(),
+            "samples": self.samples,
+            "counters": self.counters,
+            "inconclusive": self.inconclusive,
+            "aux": {},
+            "violations": self.violations.values().collect::<Vec<_>>(),
+            "wall_s": self.started.elapsed().as_secs_f64(),
+            "error": Value::Null,
+        })
+        .to_string()
+    }
     pub fn finish(self, out: &Option<String>, error: Option<String>) {
         let v = json!({
             "prop": self.prop, "seed": self.seed, "tier": self.tier, "shard": self.shard, "of": self.of,
